@@ -117,6 +117,11 @@ func (c *Config) Validate() error {
 	c.mu.RLock()
 	defer c.mu.RUnlock()
 
+	return c.validateLocked()
+}
+
+// validateLocked checks the configuration; the caller holds c.mu.
+func (c *Config) validateLocked() error {
 	if c.Version <= 0 {
 		return fmt.Errorf("%w: invalid version %d", ErrInvalidConfig, c.Version)
 	}
@@ -211,7 +216,9 @@ func (c *Config) SaveManifest(dbPath string) error {
 	c.mu.RLock()
 	defer c.mu.RUnlock()
 
-	if err := c.Validate(); err != nil {
+	// The read lock is held already: taking it again in Validate would
+	// deadlock as soon as an Update is waiting for the write lock
+	if err := c.validateLocked(); err != nil {
 		return err
 	}
 
